@@ -19,12 +19,15 @@ package main
 
 import (
 	"context"
+	"crypto/tls"
 	"flag"
 	"fmt"
 	"io"
 	"log"
+	"net"
 	"strings"
 	"sync"
+	"sync/atomic"
 	"time"
 
 	kmip "github.com/smira/go-kmip"
@@ -484,7 +487,98 @@ func suiteShutdown(args []string) {
 			rep.Samples = append(rep.Samples, map[string]interface{}{"schedule": sq, "observed": results[i].obs})
 		}
 	}
+	if *only == "" {
+		shFailedHandshake(rep)
+	}
 	cw.close()
-	rep.Evaluations = cw.n
+	rep.Evaluations = cw.n + rep.Distribution["failed-handshake"]
 	rep.emit()
+}
+
+// closeRecListener records Close on the connections it hands out (below the TLS layer)
+type closeRecListener struct {
+	net.Listener
+	mu    sync.Mutex
+	conns []*closeRecConn
+}
+type closeRecConn struct {
+	net.Conn
+	closed int32
+}
+
+func (c *closeRecConn) Close() error {
+	atomic.StoreInt32(&c.closed, 1)
+	return c.Conn.Close()
+}
+func (l *closeRecListener) Accept() (net.Conn, error) {
+	c, err := l.Listener.Accept()
+	if err != nil {
+		return nil, err
+	}
+	rc := &closeRecConn{Conn: c}
+	l.mu.Lock()
+	l.conns = append(l.conns, rc)
+	l.mu.Unlock()
+	return rc, nil
+}
+
+// shFailedHandshake: sessions whose TLS handshake FAILS are started sessions too: when Shutdown returns nil their
+// connections have been closed - although the peers (a plain-text client, a client without certificate, a peer that
+// sends nothing until the handshake deadline) keep their ends open
+func shFailedHandshake(rep *Report) {
+	p := getPKI()
+	for _, kind := range []string{"plaintext-peer", "no-client-certificate", "silent-peer"} {
+		scfg := &tls.Config{Certificates: []tls.Certificate{p.server["valid"]}, ClientCAs: p.pool}
+		kmip.DefaultServerTLSConfig(scfg)
+		srv := &kmip.Server{TLSConfig: scfg, Log: log.New(io.Discard, "", 0), ReadTimeout: 300 * time.Millisecond, WriteTimeout: 300 * time.Millisecond}
+		tcp, err := net.Listen("tcp", "127.0.0.1:0")
+		if err != nil {
+			continue
+		}
+		crl := &closeRecListener{Listener: tcp}
+		served := make(chan error, 1)
+		init := make(chan struct{})
+		go func() { served <- srv.Serve(tls.NewListener(crl, scfg), init) }()
+		<-init
+		raw, err := net.DialTimeout("tcp", tcp.Addr().String(), time.Second)
+		if err != nil {
+			continue
+		}
+		switch kind {
+		case "plaintext-peer":
+			raw.Write([]byte("GET / HTTP/1.0\r\n\r\n"))
+		case "no-client-certificate":
+			tc := tls.Client(raw, &tls.Config{RootCAs: p.pool, ServerName: "localhost"})
+			tc.SetDeadline(time.Now().Add(time.Second))
+			tc.Handshake()
+			tc.Write([]byte{0})
+			buf := make([]byte, 1)
+			tc.Read(buf)
+			tc.SetDeadline(time.Time{})
+		}
+		// the peer keeps its end open; give the server time to fail the handshake (silent peer: the read deadline)
+		time.Sleep(600 * time.Millisecond)
+		ctx, cancel := contextWithTimeout(3 * time.Second)
+		err = srv.Shutdown(ctx)
+		cancel()
+		rep.Distribution["failed-handshake"]++
+		crl.mu.Lock()
+		var open int
+		for _, c := range crl.conns {
+			if atomic.LoadInt32(&c.closed) == 0 {
+				open++
+			}
+		}
+		n := len(crl.conns)
+		crl.mu.Unlock()
+		if err == nil && open > 0 {
+			rep.Violations = append([]interface{}{map[string]interface{}{"kind": "shutdown", "what": "Shutdown returned nil while the connection of a started session (its TLS handshake had failed) was still open",
+				"peer": kind, "accepted_connections": n, "still_open": open}}, rep.Violations...)
+		}
+		raw.Close()
+		select {
+		case <-served:
+		case <-time.After(2 * time.Second):
+		}
+	}
 }
